@@ -83,7 +83,7 @@ Definition write_at (f : rfile) (d : list N) : rfile :=
 
 Definition ref_step (f : rfile) (op : fop) : rfile * fobs :=
   match op with
-  | Write d => (write_at f d, ONone)
+  | Write d => (write_at f d, ONat (length d))     (* the number of elements written *)
   | WriteLines ds => (fold_left write_at ds f, ONone)
   | Rollover => (f, ONone)
   | WriteBad => (f, OErr TypeError)
